@@ -538,6 +538,8 @@ func execOp(op string) vlib.Res {
 		return execFServe(a)
 	case "wserve": // <name> <type> <class> <cd> <opt> <now>
 		return execWServe(a)
+	case "cohort": // <now> <n> <q key 5>
+		return execCohort(a)
 	case "probe": // <now> <n> then n × <q key 5>
 		return execProbe(a)
 	case "eserve": // <q key 5 (scope = the client's ECS source prefix)> <now> <outcome> <response SCOPE bits>
